@@ -80,6 +80,9 @@ package engine
 //@   guard return in loop 1: err != nil
 //@   guard return in loop 3: err != nil
 //@   guard call EvalAtom in loop 3: arg0 == clause.Head
+// every fact a rule without transform contributes is the head instantiated under that solution - evaluated function
+// expressions included, also when the head has no variables (limit(fn:plus(1, 2)) :- ... must store limit(3))
+//@   loop 3 atback len(facts) == prev(len(facts)) + 1 ==> facts[len(facts) - 1].Atom == functional.atomUnder(clause.Head, sol)
 //@   loop 1 invariant e.store != nil
 //@   loop 2 invariant e.store != nil
 //@   loop 2 atback e.options.createdFactLimit > 0 ==> len(newsolutions) <= e.options.createdFactLimit
@@ -194,9 +197,13 @@ package engine
 //@   ensures premise is ast.Eq ==> (errEq((premise as ast.Eq).Left, (premise as ast.Eq).Right, subst) ? len(result) == 0 : result == solEq((premise as ast.Eq).Left, (premise as ast.Eq).Right, subst))
 //@   ensures premise is ast.Ineq ==> (errIneq((premise as ast.Ineq).Left, (premise as ast.Ineq).Right, subst) ? len(result) == 0 : result == solIneq((premise as ast.Ineq).Left, (premise as ast.Ineq).Right, subst))
 
+// The scan of a relation for a positive premise is never cut short: errBreak, the one error a store callback uses to
+// stop a scan early, belongs to negation (premiseNegAtom) and is not mentioned here or in the function's literals. (A
+// scan that stops after createdFactLimit matches returns a truncated set of solutions and no error.)
 //@ func (e *engine) oneStepEvalPremise(premise, subst, clause)
 //@   requires e != nil && e.store != nil
 //@   opt nosafety
+//@   guard noread errBreak: false
 //@   opt assumeframe
 //@   modifies everything except engine.store
 //@   ensures premise is ast.NegAtom ==> (err != nil) == errNeg((premise as ast.NegAtom).Atom, factstore.view(e.store), subst) && (err == nil ==> result == solNeg((premise as ast.NegAtom).Atom, factstore.view(e.store), subst))
@@ -274,6 +281,7 @@ package engine
 // The semi-naive evaluator's positive-atom premise: likewise every substitution of a built-in becomes a solution.
 //@ func premiseAtom(a, lookupFn, subst)
 //@   opt nosafety
+//@   guard noread errBreak: false
 //@   loop 1 invariant len(solutions) == rangeindex + 1
 //@   loop 1 atexit len(solutions) == len(nsubsts)
 
